@@ -127,7 +127,9 @@ def apply_mutation(L, m):
     if how == "setbase":
         from diffpy.structure import Lattice
 
-        L.setLatBase(Lattice(*m["par"], baserot=np.array(m["rot"])).base)
+        work = np.array(Lattice(*m["par"], baserot=np.array(m["rot"])).base, dtype=float)
+        L.setLatBase(work)
+        work *= 0.5          # the caller's array is reused afterwards
         return True
     ang = {"alpha": L.alpha, "beta": L.beta, "gamma": L.gamma}
     if m.get("name") in ang:
@@ -162,9 +164,16 @@ def _make_lattice(spec):
         return None
     if spec.get("via_base"):
         tmp = Lattice(*spec["par"], baserot=np.array(spec["baserot"]))
-        return Lattice(base=np.array(tmp.base))
+        work = np.array(tmp.base, dtype=float)
+        L = Lattice(base=work)
+        work *= 0.5          # the caller goes on using its work array (e.g. for the next cell of a series)
+        work[0, 1] += 1.0
+        return L
     if "baserot" in spec:
-        return Lattice(*spec["par"], baserot=np.array(spec["baserot"]))
+        rot = np.array(spec["baserot"], dtype=float)
+        L = Lattice(*spec["par"], baserot=rot)
+        rot[:] = rot[::-1]   # likewise for the rotation matrix handed in
+        return L
     return Lattice(*spec["par"])
 
 
@@ -642,7 +651,13 @@ def run(ck):
     for n in range(nh):
         h = gen_history(rng, maxops)
         h["oseed"] = rng.randrange(1 << 30)
-        line, wps, reads, fails, err, imp = run_history(h, random.Random(h["oseed"]))
+        try:
+            line, wps, reads, fails, err, imp = run_history(h, random.Random(h["oseed"]))
+        except Exception as e:  # noqa: BLE001  the implementation raised on a valid lattice / admissible assignment history
+            concrete.append(("exception:%s" % type(e).__name__,
+                             "a valid lattice or an admissible assignment history raised %r (lattices %r)" % (e, [s_.get("par") for s_ in h["lats"]]),
+                             {"kind": "raise", "history": h, "observed": repr(e)}))
+            continue
         hists.append(h)
         lines.append(line)
         recs.append((wps, reads, fails, err))
@@ -756,6 +771,14 @@ def replay(path):
         bad = latok_defects(make_lattice(r["lattice"]))
         print("LatOK defects:", bad)
         return 1 if bad else 0
+    if r.get("kind") == "raise":
+        try:
+            run_history(r["history"], random.Random(r["history"].get("oseed", 0)))
+        except Exception as e:  # noqa: BLE001
+            print("raises:", repr(e))
+            return 1
+        print("no exception")
+        return 0
     if r.get("kind") in ("history", "correspondence"):
         h = r["history"]
         line, wps, reads, fails, err, imp = run_history(h, random.Random(h.get("oseed", 0)))
